@@ -179,18 +179,18 @@ def jobs_for(ctx, exe):
     # first in each of its 6 orders, followed by client-side orders; plus unrestricted random orders of the 9 slots
     if not th:
         for v in VARIANTS:
-            n = 12 if v in ("ipc", "local") else 4
-            fam(v, 2, n)
-            rnd(v, "reqres2", 1, 1, 40)
-            plan["sampled"] += ["%s reqres2 server-side-first: 6 x %d of 720 client-side orders" % (v, n), "%s reqres2: 40 of 9!" % v]
+            n = 6 if v in ("ipc", "local") else 2
+            fam(v, 1, n)
+            rnd(v, "reqres2", 1, 1, 15)
+            plan["sampled"] += ["%s reqres2 server-side-first: 6 x %d of 720 client-side orders" % (v, n), "%s reqres2: 15 of 9!" % v]
             # one client, two servers, expired-connection buffer 1: both orders of the servers first, then client-side orders
-            fam(v, 1, 10, "rrovf")
-            rnd(v, "rrovf", 1, 1, 20)
-            plan["sampled"] += ["%s rrovf servers-first: 2 x 10 of 720, 20 of 8!" % v]
+            fam(v, 1, 4, "rrovf")
+            rnd(v, "rrovf", 1, 1, 8)
+            plan["sampled"] += ["%s rrovf servers-first: 2 x 4 of 720, 8 of 8!" % v]
             # two publishers, a Sample of each held, subscriber_expired_connection_buffer = 1 < max borrowed samples: publishers first
-            fam(v, 1, 8 if v in ("ipc", "local") else 4, "ps2")
-            rnd(v, "ps2", 1, 1, 12)
-            plan["sampled"] += ["%s ps2 publishers-first: 2 x %d of 120, 12 of 7!" % (v, 8 if v in ("ipc", "local") else 4)]
+            fam(v, 1, 4 if v in ("ipc", "local") else 2, "ps2")
+            rnd(v, "ps2", 1, 1, 6)
+            plan["sampled"] += ["%s ps2 publishers-first: 2 x %d of 120, 6 of 7!" % (v, 4 if v in ("ipc", "local") else 2)]
     else:
         for v in VARIANTS:
             if v in ("ipc", "local"):
@@ -214,11 +214,11 @@ def jobs_for(ctx, exe):
             plan["exhaustive"] += ["%s pubsub 1 node (720)" % v, "%s event 1 node (24)" % v]
         for v in VARIANTS:
             for p, nn in (("pubsub", 2), ("event", 2), ("reqres", 1), ("reqres", 2), ("blackboard", 1), ("blackboard", 2)):
-                rnd(v, p, nn, 1, 40)
-                plan["sampled"].append("%s %s %d node(s): 40 of %d!" % (v, p, nn, NSLOTS[(p, nn)]))
+                rnd(v, p, nn, 1, 15)
+                plan["sampled"].append("%s %s %d node(s): 15 of %d!" % (v, p, nn, NSLOTS[(p, nn)]))
         for v in ("ipc_threadsafe", "local_threadsafe"):
             for p in ("pubsub", "event"):
-                rnd(v, p, 1, 1, 24 if p == "event" else 60)
+                rnd(v, p, 1, 1, 24 if p == "event" else 30)
                 plan["sampled"].append("%s %s 1 node" % (v, p))
     else:
         for v in VARIANTS:
